@@ -271,6 +271,43 @@ def foreign_result_probes(ctx):
                 ctx.fail('a chain returned a value that is not what the task computes from its current configuration (stale or foreign result)',
                          case, {'config': main, 'returned': got, 'expected_x': want}); break
 
+    # (iii) a config file rewritten in place — same length, modification time kept — between two chains: the second follows the file
+    import json as _json
+    import os as _os
+    f_ = b.path('exp.json')
+    for k in range(ctx.n(2, 8)):
+        case = {'probe': 'config file rewritten in place', 'round': k}
+        ctx.case(case, nontrivial=True); ctx.count('foreign-result-probe:rewritten-file')
+        for want in (4 + k % 5, 5 + k % 5):
+            st = f_.stat()
+            d_ = _json.loads(f_.read_text()); d_['x'] = want
+            f_.write_text(_json.dumps(d_))
+            _os.utime(f_, ns=(st.st_atime_ns, st.st_mtime_ns))
+            chain, err = pl.build(b, root / 'fr' / f'rwdata{k}', main='exp.json')
+            got = mod.unwrap('json', chain.tasks['o'].value)
+            if got != {'t': 'o', 'p': {'x': want}, 'i': []}:
+                ctx.fail('a chain returned a value that is not what the task computes from its current configuration (stale or foreign result)',
+                         case, {'file_says_x': want, 'returned': got}); break
+    # (iv) task classes made by a factory: same module, same qualified name, different declarations
+    from taskchain import Task, Parameter
+
+    def make(default):
+        class Made(Task):
+            class Meta:
+                name = 'made'
+                parameters = [Parameter('p', default=default)]
+
+            def run(self, p) -> dict:
+                return {'p': p}
+        return Made
+    for k in range(ctx.n(2, 8)):
+        case = {'probe': 'factory-made task classes', 'defaults': [k, k + 1]}
+        ctx.case(case, nontrivial=True); ctx.count('foreign-result-probe:factory-classes')
+        vals = [Config(root / 'fr' / f'facdata{k}', name='c', data={'tasks': [make(dv_)]}).chain().tasks['made'].value for dv_ in (k, k + 1)]
+        if vals != [{'p': k}, {'p': k + 1}]:
+            ctx.fail('a chain returned a value that is not what the task computes from its current configuration (stale or foreign result)',
+                     case, {'returned': vals})
+
     class Knob:
         def __init__(self, v):
             self.v = v
@@ -360,5 +397,6 @@ def search(ctx, divergences):
 def sanity(ctx):
     from tcv.core import BrokenCheck
     c = ctx.counts
-    if c.get('values-compared', 0) < 3 * ctx.evaluations or c.get('op:value', 0) < 3 * ctx.evaluations:
+    # (cases now include the directed probes, which request few values each: thresholds with a wide margin)
+    if c.get('values-compared', 0) < 1.5 * ctx.evaluations or c.get('op:value', 0) < 1.5 * ctx.evaluations:
         raise BrokenCheck(f'generator distribution collapsed: {c}')
